@@ -63,7 +63,22 @@ def handle : List String → String
     | none => "bad-op"
     | some x =>
       let m := match writeVar x with | some bs => s!"ok {toHex bs}" | none => "panic"
-      m ++ " ## ?"
+      -- the specification (RFC 9000 §16): a value below 2^62 is written in the shortest form whose value it is;
+      -- for a value that has no encoding there is no opinion here (`write_var` unwraps: C06's panic inventory)
+      let s := if x < 2^62 then
+          let n := if x < 2^6 then 1 else if x < 2^14 then 2 else if x < 2^30 then 4 else 8
+          let tag := if n = 1 then 0 else if n = 2 then 1 else if n = 4 then 2 else 3
+          s!"ok {toHex (be n (tag * 2^(8*n-2) + x))}"
+        else "?"
+      m ++ " ## " ++ s
+  | ["varint", "tfu", n] =>
+    -- `TryFrom<usize>`: `usize` is 64 bits wide on the platforms the check runs on; succeeds iff the value is below 2^62
+    match n.toNat? with
+    | none => "bad-op"
+    | some x =>
+      if x ≥ 2^64 then "bad-op" else
+      let m := match fromU64 x with | some v => s!"ok {v}" | none => "refused"
+      m ++ " ## " ++ (if x < 2^62 then s!"ok {x}" else "refused")
   | ["varint", "esz", b] =>
     match b.toNat? with
     | none => "bad-op"
